@@ -466,7 +466,6 @@ def sweeps(ctx):
             ctx.broken.append('sweep %s failed to run: %s' % (key, o))
             continue
         dist[key] = dist.get(key, 0) + o['count']
-        ctx.count(('sweep', key, j['shard'], len(j['indices'] or [])), nontrivial=False, n=0)
         ctx.cov['evaluations'] += o['count']
         ctx.cov['distinct_nontrivial'] += o['nontrivial'] if exhaustive else 0
         for f in o['fails']:
